@@ -41,9 +41,11 @@ class SchemaCache:
         if k not in self.cache:
             try:
                 real = am.g_schema(s)
-            except am.Unrepresentable as e:
-                self.cache[k] = (None, str(e))
+            except Exception as e:      # Unrepresentable, or the real DSL refusing a declaration
+                self.cache[k] = (None, "%s: %s" % (type(e).__name__, e))
                 self.chk.count("schemas_not_buildable")
+                if not isinstance(e, am.Unrepresentable):
+                    self.chk.drift += 1
                 return self.cache[k]
             try:
                 back = am.a_schema(real)
